@@ -15,11 +15,13 @@ package api
 
 import (
 	"fmt"
+	"os"
 	"sort"
 	"strings"
 	"sync"
 	"sync/atomic"
 	"testing"
+	"time"
 
 	"github.com/gofrs/uuid"
 
@@ -177,6 +179,34 @@ func c06Leak(text string) string {
 
 func TestC06(t *testing.T) {
 	run := ev.New("C06", "model_checking")
+	if os.Getenv("VERIF_REPLAY") == "" {
+		// second family first (cheap): network A is the all-zero UUID - a value a contextualizer can
+		// return and that code may mistake for "no network"; the same invariants, depth 1 (thorough 2)
+		c06A = uuid.Nil
+		d := 1
+		if ev.Thorough() {
+			d = 2
+		}
+		c06Explore(t, run, d, false)
+		c06Concurrent(t, run)
+		c06A = uuid.Must(uuid.FromString("aaaaaaaa-aaaa-4aaa-8aaa-aaaaaaaaaaaa"))
+	}
+	maxDepth := 3
+	if ev.Thorough() {
+		maxDepth = 5
+	}
+	c06Explore(t, run, maxDepth, true)
+}
+
+var c06Extra = map[string]int{}
+
+func c06ClientA(s *apih.Server) *apih.Client {
+	c := s.ClientFor(c06A)
+	c.SendZeroNetwork = c06A == uuid.Nil
+	return c
+}
+
+func c06Explore(t *testing.T, run *ev.Run, maxDepth int, final bool) {
 	r := c04NewRun(run)
 
 	// ids B's names map to: UUIDv5(B, s) for every string B's data or panels use
@@ -209,7 +239,7 @@ func TestC06(t *testing.T) {
 	r.ignore = func(sig string) bool {
 		return strings.HasPrefix(sig, "handler-panic:") || strings.HasPrefix(sig, "valid-write-rejected:") || strings.HasPrefix(sig, "invalid-write-accepted:")
 	}
-	r.cli = func(s *apih.Server) *apih.Client { return s.ClientFor(c06A) }
+	r.cli = func(s *apih.Server) *apih.Client { return c06ClientA(s) }
 	r.reset = func(s *apih.Server) { s.TruncateTuples(c06A) }
 
 	// monitor: judge the statements logged while A's requests were served
@@ -258,7 +288,7 @@ func TestC06(t *testing.T) {
 
 	// A-side probes with B-only strings + B's vector
 	judgeB := func(r *c04Run, s *apih.Server, path []c04Step) {
-		ca := s.ClientFor(c06A)
+		ca := c06ClientA(s)
 		s.Tap.StartLog()
 		var raw strings.Builder
 		for _, q := range []*ketoapi.RelationQuery{{Object: axS("bOnly")}, {SubjectID: axS("secretB")}, {SubjectSet: &ketoapi.SubjectSet{Namespace: "n1", Object: "bOnly", Relation: "r"}}, {Namespace: axS("n1")}, {}} {
@@ -341,11 +371,16 @@ func TestC06(t *testing.T) {
 		return
 	}
 
-	maxDepth := 3
-	if ev.Thorough() {
-		maxDepth = 5
-	}
 	res := r.bfs(pool, []*c04State{c04Root(0, nil)}, maxDepth, ev.Deadline(170, 1500))
+	if !final {
+		c06Extra["zero_network_states"] = len(res.states)
+		c06Extra["zero_network_transitions"] = int(r.transitions.Load())
+		c06Extra["zero_network_statements_monitored"] = int(monitored.Load())
+		if !res.exhaustive {
+			c06Extra["zero_network_incomplete"] = 1
+		}
+		return
+	}
 
 	run.Assume(
 		"networks are selected per request through ketoctx.WithContextualizer + WithHTTPMiddlewares + WithGRPCUnaryInterceptors (header/metadata "+apih.NetworkHeader+"); rows for A and B exist in table networks",
@@ -374,7 +409,111 @@ func TestC06(t *testing.T) {
 		"replay_divergences":            int(r.divergences.Load()),
 		"unstable_candidates":           int(r.unstable.Load()),
 		"candidate_signatures":          r.sigCount,
-		"exhaustive":                    res.exhaustive,
+		"exhaustive":                    res.exhaustive && c06Extra["zero_network_incomplete"] == 0,
 		"workers":                       axWorkers(),
+		"zero_network_states":           c06Extra["zero_network_states"],
+		"zero_network_transitions":      c06Extra["zero_network_transitions"],
+		"concurrent_pairs":              c06Extra["concurrent_pairs"],
+		"concurrent_pause_points":       c06Extra["concurrent_pause_points"],
 	})
+}
+
+// c06Concurrent: two requests of DIFFERENT networks overlap. The first request is paused inside the
+// SQL driver before its k-th statement (every k), the second one is issued meanwhile, then the first
+// is released; each answer must be the answer the request gets alone. (If the second request cannot
+// finish before the first is released - e.g. because requests are coalesced - the release happens
+// after a bounded wait; the wait only schedules, the oracle is the pair of answers.)
+func c06Concurrent(t *testing.T, run *ev.Run) {
+	a, b := uuid.Must(uuid.FromString("aaaaaaaa-aaaa-4aaa-8aaa-aaaaaaaaaaaa")), c06B
+	s := apih.NewServer(t, apih.Options{Namespaces: axNamespaces(), MultiTenant: true})
+	s.AddNetwork(a)
+	s.AddNetwork(b)
+	for _, tp := range c06SeedB() {
+		s.ClientFor(b).Create(tp)
+	}
+	for _, tp := range []*ketoapi.RelationTuple{axID("n1", "a", "r", "x"), axSet("n1", "a", "r", "n1", "b", "s"), axID("n1", "b", "s", "z")} {
+		s.ClientFor(a).Create(tp)
+	}
+	type req struct {
+		name string
+		do   func(c *apih.Client) string
+	}
+	reqs := []req{
+		{"rest list namespace n1", func(c *apih.Client) string {
+			l := axListREST(c, &ketoapi.RelationQuery{Namespace: axS("n1")}, 0)
+			return c06SortedKeys(l.Multiset) + l.Err
+		}},
+		{"grpc list everything", func(c *apih.Client) string {
+			l := axListGRPC(c, &ketoapi.RelationQuery{}, 0)
+			return c06SortedKeys(l.Multiset) + l.Err
+		}},
+		{"rest check n1:a#r@x", func(c *apih.Client) string { return string(c.CheckGET(axID("n1", "a", "r", "x"), true, "").Raw) }},
+		{"rest expand n1:a#r", func(c *apih.Client) string {
+			return c06CanonTree(c.Expand(&ketoapi.SubjectSet{Namespace: "n1", Object: "a", Relation: "r"}, "").JSON)
+		}},
+	}
+	nets := []uuid.UUID{a, b}
+	alone := map[string]string{}
+	stmts := map[string]int{}
+	for ni, n := range nets {
+		for _, r := range reqs {
+			s.Tap.ResetCount()
+			alone[fmt.Sprint(ni, r.name)] = r.do(s.ClientFor(n))
+			s.Settle()
+			stmts[fmt.Sprint(ni, r.name)] = int(s.Tap.Count())
+		}
+	}
+	pairs, points := 0, 0
+	for n1 := range nets {
+		n2 := 1 - n1
+		for _, r1 := range reqs {
+			for _, r2 := range reqs {
+				pairs++
+				for k := 1; k <= stmts[fmt.Sprint(n1, r1.name)]; k++ {
+					points++
+					var cnt atomic.Int64
+					paused := make(chan struct{})
+					release := make(chan struct{})
+					var once sync.Once
+					s.Tap.SetBefore(func(e *sqlfault.Event) error {
+						if cnt.Add(1) == int64(k) {
+							once.Do(func() { close(paused) })
+							<-release
+						}
+						return nil
+					})
+					var o1, o2 string
+					d1, d2 := make(chan struct{}), make(chan struct{})
+					go func() { o1 = r1.do(s.ClientFor(nets[n1])); close(d1) }()
+					select {
+					case <-paused:
+					case <-d1: // fewer statements this time
+					}
+					go func() { o2 = r2.do(s.ClientFor(nets[n2])); close(d2) }()
+					select {
+					case <-d2:
+					case <-time.After(150 * time.Millisecond):
+					}
+					close(release)
+					<-d1
+					<-d2
+					s.Tap.SetBefore(nil)
+					s.Settle()
+					for _, c := range []struct {
+						n    int
+						r    req
+						got  string
+						role string
+					}{{n1, r1, o1, "paused"}, {n2, r2, o2, "overlapping"}} {
+						if want := alone[fmt.Sprint(c.n, c.r.name)]; c.got != want {
+							run.Violation("concurrent-cross-network:"+strings.Fields(c.r.name)[1], fmt.Sprintf("%s request %q in network %d answered differently while a request of the other network (%q) overlapped it at statement %d: got %.300s want %.300s", c.role, c.r.name, c.n, map[bool]string{true: r2.name, false: r1.name}[c.role == "paused"], k, c.got, want),
+								map[string]any{"first": r1.name, "second": r2.name, "pause_before_statement": k, "first_network": n1})
+						}
+					}
+				}
+			}
+		}
+	}
+	c06Extra["concurrent_pairs"] = pairs
+	c06Extra["concurrent_pause_points"] = points
 }
